@@ -1117,6 +1117,10 @@ func TestZZVerifC20(t *testing.T) {
 		defer r.Shutdown()
 		z.newRoundTrip(rng.Fork(77), sizes)
 	}
+	// ---- round trips over metadata size (no mutation): 0..2000 servers, meta.json up to > 1 MiB
+	z.metaSizeRoundTrips(rng.Fork(88))
+	z.newLargeConfigRoundTrip(rng.Fork(89), core.N(64, 400))
+	run.Floor("round-trip:snapshot.New-large-config-ok", 2)
 
 	// ---- jobs
 	var jobs []zvJob
